@@ -4,7 +4,8 @@
   the translator extracted for the respective check.
 
   in : {"op":"reset","btime":N} | kernel events {"op":"spawn"|"exit"|"reap","pid":p},
-       {"op":"tick","n":n}, {"op":"setbtime","b":b} | calls {"op":"new","pid":p},
+       {"op":"tick","n":n}, {"op":"setbtime","b":b}, {"op":"perm","pid":p,"e":"EPERM"|"EACCES"|"allow"},
+       {"op":"hide","pid":p,"on":bool} | calls {"op":"new","pid":p},
        {"op":"is_running"|"ppid"|"create_time"|"hash","i":i}, {"op":"signal","i":i,"m":"send"|"suspend"|…,"sig":n},
        {"op":"setter","i":i,"k":"nice"|"ionice"|"rlimit"|"affinity","args":[…]}, {"op":"eq","i":i,"j":j},
        {"op":"boot_time"}, {"op":"process_iter"} (→ [[pid, object index], …] in yield order; new objects are
@@ -40,6 +41,14 @@ def parseEv (j : Json) : R Ev := do
   else if op == "reap" then return .k (.reap (← natF j "pid"))
   else if op == "tick" then return .k (.tick (← natF j "n"))
   else if op == "setbtime" then return .k (.setBtime (← natF j "b"))
+  else if op == "perm" then
+    let e ← strF j "e"
+    let pid ← natF j "pid"
+    if e == "EPERM" then return .k (.perm pid (some .eperm))
+    else if e == "EACCES" then return .k (.perm pid (some .eacces))
+    else if e == "allow" then return .k (.perm pid none)
+    else .error s!"bad errno {e}"
+  else if op == "hide" then return .k (.hide (← natF j "pid") (← boolF j "on"))
   else if op == "new" then return .c (.newObj (← intF j "pid"))
   else if op == "is_running" then return .c (.isRunning (← natF j "i"))
   else if op == "signal" then return .c (.signal (← natF j "i") (← parseSig j))
@@ -58,6 +67,7 @@ def parseEv (j : Json) : R Ev := do
 
 def jExc : Exc → Json
   | .noSuchProcess pid => jObj [("kind", "exc"), ("exc", "NoSuchProcess"), ("pid", jInt pid)]
+  | .accessDenied pid => jObj [("kind", "exc"), ("exc", "AccessDenied"), ("pid", jInt pid)]
   | .valueError => jObj [("kind", "exc"), ("exc", "ValueError")]
   | .badCall => jObj [("kind", "exc"), ("exc", "badCall")]
 
@@ -66,13 +76,14 @@ def statusName : StatusWord → String
   | .terminated => "terminated"
   | .zombie => "zombie"
   | .alive => "alive"
+  | .unknown => "none"
 
 def jOut : Out → Json
   | .unit => jObj [("kind", "unit")]
   | .bool b => jObj [("kind", "bool"), ("v", Json.bool b)]
   | .nat n => jObj [("kind", "nat"), ("v", jNat n)]
   | .obj i => jObj [("kind", "obj"), ("i", jNat i)]
-  | .ident p c => jObj [("kind", "ident"), ("pid", jNat p), ("ct", jNat c)]
+  | .ident p c => jObj [("kind", "ident"), ("pid", jNat p), ("ct", jOpt jNat c)]
   | .procs l => jObj [("kind", "procs"), ("v", jList (fun e => Json.arr #[jNat e.1, jNat e.2]) l)]
   | .status w => jObj [("kind", "status"), ("v", Json.str (statusName w))]
   | .exc e => jExc e
@@ -90,9 +101,13 @@ def jArg (a : List Int) : Json :=
   if a.length > 64 && a == (List.range a.length).map Int.ofNat then jObj [("range", jNat a.length)]
   else jList jInt a
 
+def errnoName : Errno → String
+  | .eperm => "EPERM"
+  | .eacces => "EACCES"
+
 def jEff (e : Eff) : Json :=
   jObj [("kind", kindName e.kind), ("obj", jNat e.obj), ("pid", jInt e.pid), ("arg", jArg e.arg),
-        ("owner", jOpt jNat e.owner)]
+        ("owner", jOpt jNat e.owner), ("res", jOpt (fun x => Json.str (errnoName x)) e.res)]
 
 /-- what the property promises about this call, computed from the ghost fields and the kernel table
     only (Spec/C01.lean), *before* the call is executed -/
@@ -124,7 +139,8 @@ def specOf (s : St) : Ev → Json
         | none => jObj []
         | some o =>
           let base := [("listed", Json.bool (Spec.listedB s.kern o)), ("pid", jNat o.pid), ("ghost", jNat o.ghost),
-                       ("effect_call", Json.bool (Spec.isEffectCall call))]
+                       ("effect_call", Json.bool (Spec.isEffectCall call)),
+                       ("refusal", jOpt (fun x => Json.str (errnoName x)) (s.kern.refusal o.pid))]
           match Spec.wanted call with
           | none => jObj base
           | some (kind, arg) => jObj (base ++ [("want_kind", Json.str (kindName kind)), ("want_arg", jArg arg)])
@@ -132,7 +148,7 @@ def specOf (s : St) : Ev → Json
 def pairs (s : St) : Json :=
   let objs := s.ps.objs
   jObj [("model", jObj [("eq", jList (fun a => jList (fun b => Json.bool (a.pid == b.pid && a.ident == b.ident)) objs) objs),
-                         ("hash", jList (fun a => Json.arr #[jNat a.pid, jNat a.ident]) objs)]),
+                         ("hash", jList (fun a => Json.arr #[jNat a.pid, jOpt jNat a.ident]) objs)]),
         ("spec", jObj [("same", jList (fun a => jList (fun b => Json.bool (Spec.sameB a b)) objs) objs)])]
 
 def handle (cfg : Cfg) (s : St) (j : Json) : R (St × Json) := do
